@@ -107,6 +107,10 @@ type Unit struct {
 	usedCallee map[string]map[string]bool // callee key -> clause labels assumed
 	inlined    map[string]bool
 	modRecv    map[*Object]bool // objects the unit may modify (from modifies)
+	initMode   bool             // executing package init to collect the values of read-only globals
+	initVals   map[*ssa.Global]Value
+	initObjs   map[*ssa.Global]*Object
+	initState  *State
 	modRgn     map[*Region]bool
 	getvals    []*Term
 	entryDesc  []entryVar
@@ -313,6 +317,12 @@ func (u *Unit) loadGlobal(st *State, g *ssa.Global) (Value, bool) {
 	if st0, ok := t.Underlying().(*types.Struct); ok && st0.NumFields() == 0 {
 		return StructV{}, true // e.g. encoding/binary.BigEndian
 	}
+	if u.initMode {
+		if v, ok := u.initVals[g]; ok {
+			return v, true
+		}
+		return u.zero(st, t), true // not yet initialised (init$guard starts false)
+	}
 	u.unsupported("read of package-level variable %s", g.Name())
 	return nil, false
 }
@@ -484,6 +494,11 @@ func (u *Unit) store(st *State, fr *Frame, p Value, v Value, t types.Type, in ss
 		}
 		return u.writeElem(st, p.R, p.Idx, p.Path, t, v)
 	case GlobalPtr:
+		if u.initMode {
+			u.initVals[p.G] = v
+			u.initState = st
+			return true
+		}
 		u.frameViolation(st, fr, in)
 		u.unsupported("store to package-level variable %s", p.G.Name())
 		return false
@@ -563,6 +578,30 @@ func (u *Unit) val(st *State, fr *Frame, v ssa.Value) Value {
 	case *ssa.Const:
 		return u.constVal(st, c.Type(), c.Value)
 	case *ssa.Global:
+		if u.initMode && c.Pkg == u.eng.ssaPkg {
+			o := u.initObjs[c]
+			if o == nil {
+				o = u.newObject(st, u.zero(st, c.Type().(*types.Pointer).Elem()), c.Name())
+				u.initObjs[c] = o
+			}
+			return PtrV{Obj: o}
+		}
+		if !u.initMode && c.Pkg == u.eng.ssaPkg {
+			if gi := u.eng.globalInitInfo(); gi.objOf[c] != nil {
+				// a read-only lookup table: its init-time value, shared by all units
+				for r, rs := range gi.st.rgn {
+					if _, ok := st.rgn[r]; !ok {
+						st.rgn[r] = rs
+					}
+				}
+				for o, v := range gi.st.objs {
+					if _, ok := st.objs[o]; !ok {
+						st.objs[o] = v
+					}
+				}
+				return PtrV{Obj: gi.objOf[c]}
+			}
+		}
 		return GlobalPtr{c}
 	case *ssa.Function:
 		return FuncV{Fn: c}
